@@ -312,6 +312,7 @@ func genRx(d *draws, targets []string, depth int) *rx {
 }
 
 // invalid regex patterns (rejected by every RE2 parser)
-var badRegexes = []string{"(", "[a", "*a", "a**", `a\`, "a{2,1}", "(?P<n", "a)"}
+// (the last three only become well formed when something is wrapped around them)
+var badRegexes = []string{"(", "[a", "*a", "a**", `a\`, "a{2,1}", "(?P<n", "a)", "a)|(b", ")(", "a)(?:b"}
 
 func rxString(p []byte) string { return fmt.Sprintf("%q", p) }
